@@ -103,10 +103,12 @@ def run(chk):
         tables = ir.run(tconts)
     finally:
         ir.close()
-    for t in tables:
+    for t, tc in zip(tables, tconts):
         if isinstance(t, dict):
-            for ver in ["1.1", "1.0"]:
-                other.append({"fmt": "treeinfo", "text": DCo.render_ini(DL.down_treeinfo_table(t, ver)), "table": DL.down_treeinfo_table(t, ver)})
+            for ver in ["1.1", "1.0", "0.3"]:
+                dt = DL.down_treeinfo_table(t, ver)
+                if dt is not None:
+                    other.append({"fmt": "treeinfo", "text": DCo.render_ini(dt), "table": dt, "desc": tc["content"], "version": ver})
             g = {k: v for k, v in t["general"].items() if not k.startswith(";")}
             if "-" not in g.get("variant", ""):
                 other.append({"fmt": "treeinfo", "text": DCo.render_ini({"general": g}), "pre_productmd": True})
@@ -137,6 +139,14 @@ def run(chk):
         kinds[tag] = kinds.get(tag, 0) + 1
         small = {"fmt": c["fmt"], "path": c.get("path"), "text": None if "path" in c else c["text"][:400]}
         v = check_upgrade(chk, c, r, "docs_legacy", small)
+        if not v and c.get("desc") is not None and r[0] == "ok":
+            from props.C04 import norm as norm_ti
+            want = norm_ti(c["desc"])
+            got = r[3]
+            for k in want:
+                if got.get(k) != want[k]:
+                    v = "treeinfo %s -> current: %s not carried over: %r vs %r" % (c["version"], k, got.get(k), want[k])
+                    break
         if v:
             fid = None
             if c.get("path", "").endswith("/treeinfo/opensuse"):
